@@ -520,7 +520,7 @@ class Msg:
                 v = SymList(self._acc(name + '__len'), self._acc(name + '__arr'), elem, owner=(self, name))
             else:
                 es = msg_sort(elem) if isinstance(elem, MsgSchema) else scalar_sort(elem)
-                v = SymList(z3.IntVal(0), z3.K(z3.IntSort(), _default_term(es)), elem, owner=(self, name))
+                v = SymList(z3.IntVal(0), empty_array(es), elem, owner=(self, name))
             self.f[name] = v
             return v
         if f.kind == 'message':
@@ -596,7 +596,7 @@ class Msg:
         if f.repeated:
             elem = reg.msgs[f.type_fq] if f.kind == 'message' else f.kind
             es = msg_sort(elem) if isinstance(elem, MsgSchema) else scalar_sort(elem)
-            self.f[name] = SymList(z3.IntVal(0), z3.K(z3.IntSort(), _default_term(es)), elem, owner=(self, name))
+            self.f[name] = SymList(z3.IntVal(0), empty_array(es), elem, owner=(self, name))
         elif f.kind == 'message':
             child = Msg(reg.msgs[f.type_fq], base=None)
             child.parent = (self, name)
@@ -697,6 +697,18 @@ def _lift(v, sort):
     if sort == z3.RealSort():
         return z3.RealVal(v)
     raise TypeError('cannot lift %r to %s' % (v, sort))
+
+
+_EMPTY = {}
+
+
+def empty_array(es):
+    """the (irrelevant) content of an empty array-list: one uninterpreted array constant per element sort
+    (a constant-array of a non-value default term is not accepted by every SMT-LIB solver)"""
+    k = str(es)
+    if k not in _EMPTY:
+        _EMPTY[k] = z3.Const('empty_arr_' + ''.join(c if c.isalnum() else '_' for c in k), z3.ArraySort(z3.IntSort(), es))
+    return _EMPTY[k]
 
 
 def _default_term(sort):
